@@ -32,6 +32,17 @@ def _check_chunk(cases):
                         n += 1
                         if not expr.agrees(expr.ev(e), got):
                             bad("agg:" + name, "%s of %r: expected %r observed %r" % (name, c["v"], expr.ev(e), float(got)))
+                    # the same array handed to one statistic after the other (verif.data hands out its cached arrays): each answer is still
+                    # the statistic of the values that were passed
+                    shared = v.copy()
+                    order = [x for x in ("median", "iqr", "std") if x in c["agg"]] + [x for x in sorted(c["agg"]) if x not in ("median", "iqr", "std")]
+                    for name in order:
+                        got = verif.aggregator.get(name)(shared)
+                        n += 1
+                        if not expr.agrees(expr.ev(c["agg"][name]), got):
+                            bad("agg:%s:after-other-statistics" % name, "%s of %r, computed from the array that median/iqr/... were computed from before: expected %r observed %r (array now %r)"
+                                % (name, c["v"], expr.ev(c["agg"][name]), float(got), shared.tolist()))
+                            break
                     for k, e in enumerate(c["quant"]):
                         q = num(c["qlevels"][k])
                         got = verif.aggregator.Quantile(q)(v.copy())
@@ -42,6 +53,15 @@ def _check_chunk(cases):
                 elif c["kind"] == "arr":
                     shape = tuple(c["shape"])
                     a = np.array([num(x) for x in c["flat"]], float).reshape(shape)
+                    shared = a.copy()
+                    for ax in range(3):
+                        for name in [x for x in ("median", "iqr") if x in c["along"][ax]] + [x for x in sorted(c["along"][ax]) if x in ("change", "mean", "max")]:
+                            got = np.asarray(verif.aggregator.get(name)(shared, axis=ax), float).reshape(-1)
+                            n += 1
+                            want = [expr.ev(e) for e in c["along"][ax][name]]
+                            if len(got) != len(want) or not all(expr.agrees(w, g) for w, g in zip(want, got)):
+                                bad("agg-axis:%s:after-other-statistics" % name, "%s along axis %d of %r%r, computed from the array other statistics were computed from before: expected %r observed %r"
+                                    % (name, ax, c["flat"], shape, want, got.tolist()))
                     for ax in range(3):
                         for name, es in c["along"][ax].items():
                             got = np.asarray(verif.aggregator.get(name)(a.copy(), axis=ax), float).reshape(-1)
